@@ -6,7 +6,7 @@
     `e0 : ℤ`, `M ∈ [10,99]`, `v ∈ [1,10)` with `val d = v·10^e0`, `M = ⌊10v⌋`            (argument decomposition)
     `v2` with `1 ≤ v2 ≤ q := 10v/M`, `q(1 - [M≠10]·lam) ≤ v2`                            (first reduction)
     `f ≥ 0` with `z(1-lam) ≤ f ≤ z(1+eps)/(1-lam)`, `z = (v2-1)/(v2+1)`, `f ≤ 1/20`       (the quotient)
-    `R` with `Sj f 12·(1-lam)^38 ≤ R ≤ Sj f 12`                                          (the series)
+    `R` with `Sj f 16·(1-lam)^50 ≤ R ≤ Sj f 16`                                          (the series)
     `neg = (e0 < 0)`, `|val x − |B|| ≤ lam·(4(|e0|·ln10v + 2R) + lnM M)`,
     `B = 2R + |e0|·ln10v + lnM M` (`e0 ≥ 0`), `|e0|·ln10v − 2R − lnM M` (`e0 < 0`)        (the tail)
   * `Sj_le_two_mul` : `0 ≤ f ≤ 1/20 → Sj f j ≤ 2f`
@@ -44,18 +44,46 @@ theorem Sj_le_two_mul (f : ℚ) (hf0 : 0 ≤ f) (hf : f ≤ 1 / 20) (j : Nat) : 
   have hp : 0 ≤ (1 / 2 : ℚ) ^ j := by positivity
   nlinarith
 
+/-- sharper: `Sj f j ≤ f·(1 + (1 − 400^-j)/399) ≤ 1.01·f` for `f ≤ 1/20` -/
+theorem Sj_le_aux2 (f : ℚ) (hf0 : 0 ≤ f) (hf : f ≤ 1 / 20) :
+    ∀ j, Sj f j ≤ f * (1 + (1 - (1 / 400) ^ j) / 399)
+  | 0 => by unfold Sj; norm_num
+  | j + 1 => by
+      unfold Sj
+      have ih := Sj_le_aux2 f hf0 hf j
+      have hsq : f ^ 2 ≤ 1 / 400 := by nlinarith
+      have hsq0 : 0 ≤ f ^ 2 := by positivity
+      have hp : (f ^ 2) ^ (j + 1) ≤ (1 / 400) ^ (j + 1) := pow_le_pow_left₀ hsq0 hsq _
+      have hden : (1 : ℚ) ≤ ((2 * (j + 1) + 1 : Nat) : ℚ) := by
+        have : 1 ≤ 2 * (j + 1) + 1 := by omega
+        exact_mod_cast this
+      have hterm : f * (f ^ 2) ^ (j + 1) / ((2 * (j + 1) + 1 : Nat) : ℚ) ≤ f * (1 / 400) ^ (j + 1) := by
+        calc f * (f ^ 2) ^ (j + 1) / ((2 * (j + 1) + 1 : Nat) : ℚ) ≤ f * (f ^ 2) ^ (j + 1) / 1 :=
+              div_le_div_of_nonneg_left (by positivity) (by norm_num) hden
+          _ = f * (f ^ 2) ^ (j + 1) := by ring
+          _ ≤ f * (1 / 400) ^ (j + 1) := mul_le_mul_of_nonneg_left hp hf0
+      have e : f * (1 + (1 - (1 / 400) ^ (j + 1)) / 399)
+          = f * (1 + (1 - (1 / 400) ^ j) / 399) + f * (1 / 400) ^ (j + 1) := by
+        rw [pow_succ]; ring
+      rw [e]; linarith
+
+theorem Sj_le_101 (f : ℚ) (hf0 : 0 ≤ f) (hf : f ≤ 1 / 20) (j : Nat) : Sj f j ≤ 101 / 100 * f := by
+  have := Sj_le_aux2 f hf0 hf j
+  have hp : 0 ≤ (1 / 400 : ℚ) ^ j := by positivity
+  nlinarith
+
 /-- **What `decomposed192.log` computes** (rational arithmetic). -/
 theorem log_code_spec (d : decomposed192) (hd : d.sig.toNat ≠ 0)
     (he : -16000 ≤ d.exp.toInt ∧ d.exp.toInt ≤ 16000) :
     ∃ (neg : Bool) (x : decomposed192) (t : Int8) (e0 : Int) (M : Int64) (v v2 f R : ℚ),
-      Gen.decomposed192.log d = .ok (neg, x, t) ∧ flag3 t ∧ -5500 ≤ x.exp.toInt ∧ x.exp.toInt ≤ 5500 ∧
+      Gen.decomposed192.log d = .ok (neg, x, t) ∧ flag3 t ∧ -5930 ≤ x.exp.toInt ∧ x.exp.toInt ≤ 5500 ∧
       val d = v * (10 : ℚ) ^ e0 ∧ -16000 ≤ e0 ∧ e0 ≤ 16057 ∧ 10 ≤ M.toInt ∧ M.toInt ≤ 99 ∧
       (M.toInt : ℚ) ≤ 10 * v ∧ 10 * v < (M.toInt : ℚ) + 1 ∧
       1 ≤ v2 ∧ v2 ≤ 10 * v / (M.toInt : ℚ) ∧
       10 * v / (M.toInt : ℚ) * (1 - (if M.toInt = 10 then 0 else lam)) ≤ v2 ∧
       0 ≤ f ∧ f ≤ 1 / 20 ∧ (v2 - 1) / (v2 + 1) * (1 - lam) ≤ f ∧
       f ≤ (v2 - 1) / (v2 + 1) * ((1 + Root.eps) / (1 - lam)) ∧
-      Sj f 12 * (1 - lam) ^ 38 ≤ R ∧ R ≤ Sj f 12 ∧
+      Sj f 16 * (1 - lam) ^ 50 ≤ R ∧ R ≤ Sj f 16 ∧
       neg = decide (e0 < 0) ∧
       |val x - (|if e0 < 0 then (e0.natAbs : ℚ) * ln10v - 2 * R - lnM M
                  else 2 * R + (e0.natAbs : ℚ) * ln10v + lnM M|)|
@@ -92,7 +120,7 @@ theorem log_code_spec (d : decomposed192) (hd : d.sig.toNat ≠ 0)
       _ ≤ 1 / 21 * (21 / 20) := mul_le_mul hz hfac hfac0 (by norm_num)
       _ = 1 / 20 := by norm_num
   have hRle : val res ≤ 1 / 10 := by
-    have := Sj_le_two_mul f hf0 hf20 12
+    have := Sj_le_two_mul f hf0 hf20 16
     linarith
   obtain ⟨neg, x, t', htail, ht', hneg, hx, hxe0, hxe1⟩ :=
     logTail_spec e0 M res t ht (by omega) hM0 hM1 hRle hre0 hre1
